@@ -29,6 +29,11 @@ enum Fault {
     /// WebSocketClient only: a binary message of this many bytes (shorter than a header; below 12 it does not even
     /// hold the id field), the peer staying up
     ShortBinary(u8),
+    /// orderly end of stream towards the client (FIN) BEFORE any call, the peer still accepting (never reading)
+    /// what the client writes: the reader sees EOF while nothing is in flight; calls made afterwards fail
+    HalfCloseBeforeCalls,
+    /// the same after the requests were read
+    HalfCloseAfterRequests,
 }
 
 #[derive(Clone, Copy, Debug, PartialEq, Eq)]
@@ -98,7 +103,7 @@ fn scenarios(tier: Tier) -> Vec<Scenario> {
     let mut v = Vec::new();
     let inflights: &[usize] = if tier == Tier::Thorough { &[0, 1, 2, 4, 16] } else { &[0, 1, 2, 3] };
     for kind in [Kind::Async, Kind::Ws] {
-        let mut faults = vec![Fault::CloseBeforeCalls, Fault::CloseAfterRequests, Fault::ResetAfterRequests, Fault::AnswerOneThenClose];
+        let mut faults = vec![Fault::CloseBeforeCalls, Fault::CloseAfterRequests, Fault::ResetAfterRequests, Fault::AnswerOneThenClose, Fault::HalfCloseBeforeCalls, Fault::HalfCloseAfterRequests];
         for c in [Cut::One, Cut::HeaderMinus1, Cut::Header, Cut::HeaderPlusQuery, Cut::LenMinus1] {
             faults.push(Fault::MidResponse(c));
         }
@@ -240,13 +245,18 @@ async fn run_failure_sub(kind: Kind, inflight: usize, timed: bool, fault: Fault,
         peer.close();
         memstream::settle().await;
     }
+    if fault == Fault::HalfCloseBeforeCalls {
+        peer.ctl().b_to_a.close();
+        memstream::settle().await;
+    }
     let t = if timed { Some(Duration::from_secs(100)) } else { None };
     let calls: Vec<_> = (0..inflight as u64).map(|i| tokio::spawn(cli.call(100 + i, t, 0))).collect();
     let reqs = peer.drain_requests().await.unwrap_or_default();
     let ids = clients::tag_ids(&reqs);
     let mut answered: Option<u64> = None;
     match fault {
-        Fault::CloseBeforeCalls => {}
+        Fault::CloseBeforeCalls | Fault::HalfCloseBeforeCalls => {}
+        Fault::HalfCloseAfterRequests => peer.ctl().b_to_a.close(),
         Fault::CloseAfterRequests => peer.close(),
         Fault::ResetAfterRequests => peer.reset(),
         Fault::AnswerOneThenClose => {
